@@ -5,9 +5,9 @@ NOTES = ("All hooks are injected with `go build -overlay` from /verif/harness (b
 
 CHECKS = {
     "C14": {
-        "technique": "Coq theorems (chunk laws for any limit/size function, by induction over the object list) + differential correspondence of the real chunkers against the model, monitor proved sound",
-        "text": "Chunking laws are proved for all inputs in Coq (props/C14.v); the real chunkers are run on size vectors around the real limit and compared with the model inside Coq; the slice-transparency clauses are decided by the pass-level model (see level_note).",
-        "note": "Trusted: Coq kernel + vm_compute, the Go harness (object padding, index recovery), Python driver. Model hand-written; tie is differential. Sizes assumed positive (checked per case).",
+        "technique": "Coq theorems: chunk laws for any limit/size function; slice naming loop for any hash function and any store of existing slices; slice GC as a pure function (exactness + safety); sliced ObjectSet pass as a wrapper around ObjectSet.v with a trace equation after erasing slice events; differential correspondence of the real chunkers, the real DeploymentReconciler (chunkPhase/reconcileSlice/sliceGarbageCollection) and the real ObjectSet controller on inline/sliced twin worlds, judged in Coq; monitors proved sound",
+        "text": "props/C14.v proves: chunking is lossless/in order/size-bounded; the slice finally used has exactly the requested content and is controlled by the deployment, a clashing name is never reused, for every hash; GC deletes exactly labelled unreferenced slices; load after chunk is the identity; a sliced ObjectSet issues the inline ObjectSet's requests plus slice owner-reference updates in every lifecycle state (C14_sliced_fixed_equiv). Teardown equivalence was refuted for the controller before fix bcaa4f7 (witness kept). The real code is run on clashing stores (names from the real FNV hash), update histories that add/drop slices, and every lifecycle scenario twice (inline vs sliced).",
+        "note": "Trusted: Coq kernel + vm_compute; hand-written models tied by differential runs; harness (recording Store, stub chunker returning prescribed chunks, tabulation of the real hash); Python driver. Sizes positive; hash separates collision counts for termination (the Go loop is unbounded); pass-level atomicity with fresh cache; equivalence stated for ObjectSets whose referenced slices exist (a missing slice is skipped during teardown).",
     },
 }
 
